@@ -180,7 +180,7 @@ Lemma bfgspd_same_formula n h h_inv s y m :
 Proof. reflexivity. Qed.
 Lemma bfgspd_inv_same_formula n h h_inv s y m :
   BFGSPDUpdate_updated_h_inv E n h h_inv s y m = BFGSUpdate_updated_h_inv E n h h_inv s y /\
-  BFGSDampedUpdate_updated_h_inv E n h h_inv s y m = BFGSUpdate_updated_h_inv E n h h_inv s y.
+  BFGSDampedUpdate_updated_h_inv E n h h_inv s y m = Fminv n (BFGSDampedUpdate_updated_h E n h h_inv s y m).
 Proof. split; reflexivity. Qed.
 
 (* ------------------------------------------------------------------------------------------ *)
@@ -597,6 +597,26 @@ Proof.
   field. repeat split; assumption.
 Qed.
 
+(* symmetry of the closed inverse forms *)
+Lemma bfgs_inv_symmetric n (h h_inv : mat) (s y : vec) :
+  symmetric n h_inv -> dot n s y <> 0 ->
+  symmetric n (BFGSUpdate_updated_h_inv E n h h_inv s y).
+Proof.
+  intros Hs Ha i j Hi Hj. unfold BFGSUpdate_updated_h_inv. cbv zeta.
+  pose proof (fsq_nonzero _ Ha) as Ha2. unfold fsq in *. env.
+  unfold Sums.msub, Sums.madd, Sums.mdivs, Sums.mscal. rewrite !matmul_outer_r.
+  unfold Sums.outer. rewrite !S_vm_sym by assumption. rewrite (Hs i j) by assumption.
+  field; repeat split; assumption.
+Qed.
+
+Lemma sr1_inv_symmetric n (h h_inv : mat) (s y : vec) :
+  symmetric n h_inv -> dot n (vsub s (matvec n h_inv y)) y <> 0 ->
+  symmetric n (SR1Update_updated_h_inv E n h h_inv s y).
+Proof.
+  intros Hs Ha i j Hi Hj. unfold SR1Update_updated_h_inv. cbv zeta. env.
+  unfold Sums.madd, Sums.mdivs, Sums.outer. rewrite (Hs i j) by assumption. field. exact Ha.
+Qed.
+
 (* ------------------------------------------------------------------------------------------ *)
 (* sub-space embedding (hessian_update.py:67-81)                                                *)
 Lemma ensure_hermitian_entry (m : mat) i j : ensure_hermitian E m i j = (m i j + m j i) / (1 + 1).
@@ -912,6 +932,23 @@ Lemma bfgs_sr1_exact_quadratic :
 Proof.
   split; [reflexivity|]. unfold BFGSSR1Update_updated_h_denoms. cbv zeta. cbn [app].
   do 2 apply Exists_cons_tl. constructor. vm_compute. reflexivity.
+Qed.
+
+(* SR1's guard does not protect the INVERSE form: gradient unchanged (y = 0) with s <> 0 passes
+   conditions_met and makes the divisor (s - Hinv y).y of _updated_h_inv zero (hessian_update.py:309-312) *)
+Lemma sr1_inverse_unguarded :
+  sq 1 = 1 ->
+  SR1Update_conditions_met QE 1 one1 one1 v1 v0 = true /\
+  SR1Update_updated_h_denoms QE 1 one1 one1 v1 v0 = [Q2Qc (-1)] /\
+  SR1Update_updated_h_inv_denoms QE 1 one1 one1 v1 v0 = [0].
+Proof.
+  intros H1. split; [|split; vm_compute; reflexivity].
+  unfold SR1Update_conditions_met. cbv zeta. unfold vnorm, QE, QcEnv.
+  cbn [fF f0 f1 fadd fmul fsub fopp fdiv finv fltb fsqrt fabs].
+  replace (dot Qc 0 Qcplus Qcmult 1 v1 v1) with 1 by (vm_compute; reflexivity).
+  match goal with |- context [sq (dot Qc 0 Qcplus Qcmult 1 ?z ?z)] =>
+    replace (dot Qc 0 Qcplus Qcmult 1 z z) with 1 by (vm_compute; reflexivity) end.
+  rewrite H1. vm_compute. reflexivity.
 Qed.
 
 (* SR1 rejects the zero step *)
